@@ -111,8 +111,11 @@ def notify_rules(rep, rid, F):
                     "(popped %s, reset %s, held %s)" % (popped, reset, held))
         # the resumed context is the one copied from the queue head
         from .common import local_init
+        from engine.kinds import derives_from
         ini = local_init(fn, P(rev.get("recv")))
-        if ini is not None and "queue_.front()" in T(ini) and T(ini).endswith(".ctx_"):
+        direct = ini is not None and "queue_.front()" in T(ini) and T(ini).endswith(".ctx_")
+        via = derives_from(fn, rev.get("recv"), lambda t: t.endswith(".ctx_")) and derives_from(fn, rev.get("recv"), lambda t: "queue_.front()" in t)
+        if direct or via:
             rep.ok(rid, fn, "the resumed context is the queue head's")
         else:
             rep.bad(rid, fn, loc_of(rev), "resume-target", "the resumed context is not the dequeued entry's context")
@@ -124,7 +127,8 @@ def notify_rules(rep, rid, F):
     for (b, i), st in cf.ret_states.items():
         fb = ff.before.get((b, i)) or frozenset()
         nonempty = bool(deq.get((b, i)))        # a waiter was dequeued on every path to this return
-        nullctx = any((not t) and a == "ctx" for a, t in fb)
+        ctxname = P(res[0][2].get("recv")) if res else "ctx"        # the local holding the dequeued context, whatever it is called
+        nullctx = any((not t) and a == ctxname for a, t in fb)
         want = {1} if (nonempty and not nullctx) else {0}
         ev = fn.blocks[b].events[i]
         if set(x for x in st if isinstance(x, int)) <= want:
@@ -147,13 +151,21 @@ def notify_rules(rep, rid, F):
     if loop is None:
         rep.bad(rid, fn, loc_of(rev), "no-drain-loop", "notify_all resumes outside a loop: only one waiter is woken")
         return
+    # the local list the waiters are moved to (swapped with this->queue_), whatever it is called
+    from engine.core import subexprs
+    sw = [e for _, _, e in fn.all_events() if e.get("k") == "call" and callee_short(e) == "swap" and "this->queue_" in T(e)]
+    LQ = "queue"
+    if sw:
+        names = [x.get("name") for x in subexprs(sw[0], lambda y: isinstance(y, dict) and y.get("k") == "var" and not y.get("param"))]
+        if names:
+            LQ = names[0]
     exits = []
     for b in loop:
         blk = fn.blocks[b]
         for lab, t, _ in blk.succ:
             if t not in loop:
                 exits.append((b, lab, cond_atoms(blk.cond) if blk.cond is not None else None))
-    ok_exit = all(c is not None and c[0].endswith("queue.empty()") and ((lab == "true") == c[1]) for b, lab, c in exits)
+    ok_exit = all(c is not None and c[0].endswith(LQ + ".empty()") and ((lab == "true") == c[1]) for b, lab, c in exits)
     every = on_every_cycle(fn, loop, rb)
     swapped = precedes_on_all_paths(fn, lambda e: e.get("k") == "call" and callee_short(e) == "swap" and "this->queue_" in T(e), (rb, ri))
     # the swapped-out list is not private: every entry's q_ points at it, and a timed waiter whose deadline expires
@@ -161,7 +173,7 @@ def notify_rules(rep, rid, F):
     lf2 = LockFlow(fn)
     want = "@" + fn.params[0]["name"]
     unl = [(b, i, ev) for b, i, ev in fn.all_events() if ev.get("k") == "call" and ev.get("recv") is not None and
-           (P(ev["recv"]) == "queue" or P(ev["recv"]).startswith("queue.")) and callee_short(ev) in ("front", "pop_front", "empty", "begin", "end", "erase", "back", "pop_back")
+           (P(ev["recv"]) == LQ or P(ev["recv"]).startswith(LQ + ".")) and callee_short(ev) in ("front", "pop_front", "empty", "begin", "end", "erase", "back", "pop_back")
            and want not in (lf2.held_before((b, i)) or ())]
     if unl:
         rep.bad(rid, fn, loc_of(unl[0][2]), "drain-unlocked", "notify_all touches the swapped-out waiter list (%s) without holding the lock it was given: a timed waiter "
